@@ -236,18 +236,24 @@ __CPROVER_ensures(NV_FITTED(NV_CB_RET._2.m_weights, NV_PART_WEIGHTS, NV_ID_TRAIN
 /* first component: (error | loss) of THAT model on the training samples, second: of THAT model on the validation samples */ \
 __CPROVER_ensures((NV_ARG_linear_fit_callback_1->n > 0 ==> (NV_CB_RET._0.by == NV_ID_TRAIN && NV_CB_RET._0.w == NV_CB_RET._2.m_weights.id && NV_CB_RET._0.b == NV_CB_RET._2.m_bias.id)) && NV_CB_RET._0.rows == 2 && NV_CB_RET._0.cols == NV_ARG_linear_fit_callback_1->n) \
 __CPROVER_ensures((NV_ARG_linear_fit_callback_2->n > 0 ==> (NV_CB_RET._1.by == NV_ID_VALID && NV_CB_RET._1.w == NV_CB_RET._2.m_weights.id && NV_CB_RET._1.b == NV_CB_RET._2.m_bias.id)) && NV_CB_RET._1.rows == 2 && NV_CB_RET._1.cols == NV_ARG_linear_fit_callback_2->n) \
-__CPROVER_ensures(nv_e_looped == __CPROVER_old(nv_e_looped) + 2)
+__CPROVER_ensures(nv_e_looped == __CPROVER_old(nv_e_looped) + 2) \
+__CPROVER_ensures(NV_CB_RET._2.m_weights.id != 0 && NV_CB_RET._2.m_bias.id != 0)
 
 /* ================================================================================================ linear_t::fit
  * "the final refit uses the optimum trial's parameters on ALL given samples, the stored weights / bias are the (up-scaled)
  * result of that refit", the final statistics are evaluated with the STORED model on the samples given to fit(). */
-#define NV_CONTRACT_linear_model_fit \
+/* split so that the composition target (tuned.h: ml::tune modelled with the REAL callback) can restate the clauses around its own count of minimisations */
+#define NV_LMF_FRAME \
 __CPROVER_requires(NV_LT_FRESH(self) && NV_LT_FRESH(NV_ARG_linear_model_fit_2) && NV_ARG_linear_model_fit_2->id == NV_ID_FIT && 0 <= NV_ARG_linear_model_fit_2->n && NV_ARG_linear_model_fit_2->n <= 1000000000 && nv_params_id0 <= 1000000000) \
 __CPROVER_assigns(*self, nv_thrown, nv_stored, nv_stored_values, nv_stored_extra) \
-__CPROVER_assigns(nv_id_counter, nv_minimized, nv_lf_state, nv_upscaled, nv_lstat_sink, nv_e_looped, nv_e_pred, nv_e_pred_w, nv_e_pred_b, nv_e_pred_by, nv_e_pred_out, nv_e_pred_pos, __CPROVER_object_whole(nv_e_cell), __CPROVER_object_whole(nv_e_kind), __CPROVER_object_whole(nv_e_ok)) \
+__CPROVER_assigns(nv_id_counter, nv_minimized, nv_lf_state, nv_upscaled, nv_lstat_sink, nv_e_looped, nv_e_pred, nv_e_pred_w, nv_e_pred_b, nv_e_pred_by, nv_e_pred_out, nv_e_pred_pos, __CPROVER_object_whole(nv_e_cell), __CPROVER_object_whole(nv_e_kind), __CPROVER_object_whole(nv_e_ok))
+#define NV_LMF_ONE_REFIT \
 /* exactly one refit, after tuning: optimum trial's hyper-parameters, ALL given samples; stored up-scaled once */ \
-__CPROVER_ensures(nv_thrown || (nv_minimized == __CPROVER_old(nv_minimized) + 1 && nv_upscaled == __CPROVER_old(nv_upscaled) + 1)) \
+__CPROVER_ensures(nv_thrown || (nv_minimized == __CPROVER_old(nv_minimized) + 1 && nv_upscaled == __CPROVER_old(nv_upscaled) + 1))
+#define NV_LMF_REST \
 __CPROVER_ensures(nv_thrown || (NV_FITTED(self->m_weights, NV_PART_WEIGHTS, NV_ID_FIT, nv_params_id0 + (uint64_t)nv_opt_trial) && NV_FITTED(self->m_bias, NV_PART_BIAS, NV_ID_FIT, nv_params_id0 + (uint64_t)nv_opt_trial))) \
 /* final statistics: of the stored model on the samples given to fit(), stored exactly once together with the refit result */ \
 __CPROVER_ensures(nv_thrown || (nv_stored == __CPROVER_old(nv_stored) + 1 && (NV_ARG_linear_model_fit_2->n > 0 ==> (nv_stored_values.by == NV_ID_FIT && nv_stored_values.w == self->m_weights.id && nv_stored_values.b == self->m_bias.id)) && nv_stored_values.rows == 2 && nv_stored_values.cols == NV_ARG_linear_model_fit_2->n)) \
 __CPROVER_ensures(nv_thrown || (nv_stored_extra.w == self->m_weights.id && nv_stored_extra.b == self->m_bias.id && nv_stored_extra.id != 0))
+
+#define NV_CONTRACT_linear_model_fit NV_LMF_FRAME NV_LMF_ONE_REFIT NV_LMF_REST
